@@ -143,7 +143,8 @@ stmt
 		$<dex>$->right = $<dex>3;
 	}
 	| TOK_NOT stmt {
-		($<dex>$ = $<dex>2)->nega = 1;
+		/* toggle, the operand may be a negation already */
+		($<dex>$ = $<dex>2)->nega ^= 1U;
 	}
 	| TOK_LPAREN stmt TOK_RPAREN {
 		$<dex>$ = $<dex>2;
